@@ -25,5 +25,7 @@ print("\n### Seeded changes\n")
 print("| id | breaks | what was changed | needs | result |"); print("|---|---|---|---|---|")
 sd = os.path.join(HERE, "seeded")
 for n in sorted(os.listdir(sd)):
+    if not os.path.isdir(os.path.join(sd, n)):
+        continue
     m = json.load(open(os.path.join(sd, n, "meta.json")))
     print(f"| {n} | {m.get('property')} | {m.get('summary','')[:260]} | {m.get('needs','')[:200]} | {m.get('note','')[:330]} |")
